@@ -8,8 +8,13 @@ def main():
     only = sys.argv[2:] 
     mod = importlib.import_module(f"units.{pid}")
     u = mod.build(unit.Sources())
-    hs = [h for h in u.kani.harnesses if not only or any(o in h.name for o in only)]
-    r = krun.run(u.kani, hs, keep=bool(os.environ.get("KEEP")))
+    specs = u.kani if isinstance(u.kani, list) else [u.kani]
+    for sp in specs:
+        hs = [h for h in sp.harnesses if not only or any(o in h.name for o in only)]
+        if hs:
+            one(sp, hs)
+def one(sp, hs):
+    r = krun.run(sp, hs, keep=bool(os.environ.get("KEEP")))
     print(f"wall={r.wall_s:.1f}s cmd={r.cmd} scratch={r.scratch}")
     if r.build_error:
         print("BUILD ERROR\n", r.build_error)
